@@ -1,0 +1,57 @@
+//go:build verif
+
+// Contracts for package lalr, read by /verif/govc (contract-based deductive verification).
+// This file contains comments and pure specification functions only; it is compiled only with -tags verif.
+package lalr
+
+//@ func (*LALR1).UseDefaultResolveConflict
+//@ props C04
+//@ results res
+//@ requires act01 != nil && act02 != nil
+//@ ensures [C04] act01.ActionType == SHIFT ==> res == act01
+//@ ensures [C04] act01.ActionType != SHIFT && act02.ActionType == SHIFT ==> res == act02
+//@ ensures [C04] res == act01 || res == act02
+//@ ensures [C04] act01.ActionType == REDUCE && act02.ActionType == REDUCE ==>
+//@     -res.ActionIndex <= -act01.ActionIndex && -res.ActionIndex <= -act02.ActionIndex
+//@ modifies nothing
+
+//@ func (*LALR1).ResolveConflict
+//@ props C04
+//@ results res, err
+//@ requires act01 != nil && act02 != nil
+//@ ensures (err == nil) == (res != nil)
+//@ ensures [C04] spec_sr(act01, act02) && (spec_R(act01, act02).Prec == -1 || spec_S(act01, act02).Prec == -1) ==> err != nil
+//@ ensures [C04] spec_sr(act01, act02) && spec_R(act01, act02).Prec != -1 && spec_S(act01, act02).Prec != -1 &&
+//@     spec_R(act01, act02).Prec > spec_S(act01, act02).Prec ==> err == nil && res == spec_R(act01, act02)
+//@ ensures [C04] spec_sr(act01, act02) && spec_R(act01, act02).Prec != -1 && spec_S(act01, act02).Prec != -1 &&
+//@     spec_R(act01, act02).Prec < spec_S(act01, act02).Prec ==> err == nil && res == spec_S(act01, act02)
+//@ ensures [C04] spec_sr(act01, act02) && spec_R(act01, act02).Prec != -1 && spec_R(act01, act02).Prec == spec_S(act01, act02).Prec &&
+//@     spec_R(act01, act02).PrecType == symbol.LEFT && spec_S(act01, act02).PrecType == symbol.LEFT ==> err == nil && res == spec_R(act01, act02)
+//@ ensures [C04] spec_sr(act01, act02) && spec_R(act01, act02).Prec != -1 && spec_R(act01, act02).Prec == spec_S(act01, act02).Prec &&
+//@     spec_R(act01, act02).PrecType == symbol.RIGHT && spec_S(act01, act02).PrecType == symbol.RIGHT ==> err == nil && res == spec_S(act01, act02)
+//@ ensures [C04] spec_sr(act01, act02) && spec_R(act01, act02).Prec != -1 && spec_R(act01, act02).Prec == spec_S(act01, act02).Prec &&
+//@     (spec_R(act01, act02).PrecType == symbol.NONE || spec_S(act01, act02).PrecType == symbol.NONE) ==>
+//@     err == nil && res.ActionType == ERROR && fresh(res)
+//@ ensures err == nil ==> res == act01 || res == act02 || (fresh(res) && res.ActionType == ERROR)
+//@ modifies nothing
+//@ allocates Action
+
+// spec_sr: the pair is one SHIFT and one REDUCE action (in either order).
+func spec_sr(a, b *Action) bool {
+	return (a.ActionType == SHIFT && b.ActionType == REDUCE) || (a.ActionType == REDUCE && b.ActionType == SHIFT)
+}
+
+// spec_R / spec_S: the REDUCE resp. SHIFT action of such a pair.
+func spec_R(a, b *Action) *Action {
+	if a.ActionType == REDUCE {
+		return a
+	}
+	return b
+}
+
+func spec_S(a, b *Action) *Action {
+	if a.ActionType == SHIFT {
+		return a
+	}
+	return b
+}
